@@ -44,6 +44,18 @@ fn odd(prop: &'static str) -> HxCfg {
     HxCfg::new(prop, "ids 0, 1499, 2998 in 2999 slots, Sodg<7>", 7, 2999, &[0, 1499, 2998], &[0], &[0])
 }
 
+/// the labels the code base treats specially somewhere (DOT attributes): ρ and π
+fn rho(prop: &'static str) -> HxCfg {
+    HxCfg::new(prop, "3 ids, labels ρ and π", 2, 3, &[0, 1, 2], &[3, 6], &[0])
+}
+/// ids that do not fit 16 bits
+fn wide(prop: &'static str) -> HxCfg {
+    HxCfg::new(prop, "ids 220, 65 536, 65 999 in 66 000 slots", 2, 66_000, &[220, 65_536, 65_999], &[0], &[0])
+}
+fn alike(prop: &'static str) -> HxCfg {
+    HxCfg::new(prop, "3 ids, two labels that print alike ('a b' and 'ab')", 2, 3, &[0, 1, 2], &[8, 9], &[0])
+}
+
 fn all_ops(mut c: HxCfg) -> HxCfg {
     c.clone_swap = true;
     c.reload_swap = true;
@@ -163,6 +175,8 @@ fn gc_plan(prop: &'static str, tier: &str) -> Vec<HxCfg> {
             drain(depth(swaps(big(prop)), 5)),
             drain(depth(huge(prop), 4)),
             drain(depth(odd(prop), 4)),
+            drain(depth(rho(prop), 6)),
+            drain(depth(wide(prop), 4)),
         ]
     } else {
         vec![
@@ -180,6 +194,8 @@ fn gc_plan(prop: &'static str, tier: &str) -> Vec<HxCfg> {
             wall(drain(depth(all_ops(big(prop)), 7)), 600),
             wall(drain(depth(swaps(huge(prop)), 5)), 600),
             wall(drain(depth(swaps(odd(prop)), 6)), 600),
+            wall(drain(rho(prop)), 900),
+            wall(drain(depth(wide(prop), 6)), 600),
         ]
     }
 }
@@ -211,6 +227,8 @@ pub fn hx_plan(prop: &'static str, tier: &str) -> Vec<HxCfg> {
                 v.push(depth(swaps(big(prop)), 5));
                 v.push(depth(huge(prop), 4));
                 v.push(depth(odd(prop), 4));
+                v.push(depth(rho(prop), 6));
+                v.push(depth(wide(prop), 3));
             } else {
                 v.push(wall(depth(c, 10), 900));
                 let mut m = all_ops(a3x(prop, "3 ids, 2 labels, 2 data, all ops (merges incl. a tree carrying the empty datum)"));
@@ -265,6 +283,7 @@ pub fn hx_plan(prop: &'static str, tier: &str) -> Vec<HxCfg> {
                     r(depth(big(prop), if prop == "C09" { 3 } else { 5 })),
                     r(depth(huge(prop), if prop == "C09" { 2 } else { 4 })),
                     if prop == "C09" { r(depth(HxCfg::new(prop, "ids 0, 5, 10 in 11 slots, Sodg<7>", 7, 11, &[0, 5, 10], &[0], &[0]), 3)) } else { r(depth(odd(prop), 4)) },
+                    r(depth(alike(prop), if prop == "C09" { 4 } else { 5 })),
                 ]
             } else {
                 vec![
@@ -289,7 +308,7 @@ pub fn hx_plan(prop: &'static str, tier: &str) -> Vec<HxCfg> {
                 c
             };
             if quick(tier) {
-                vec![c(all_ops(a3(prop, "3 ids, all ops"))), c(depth(a4(prop, "4 ids"), 6)), c(depth(HxCfg::new(prop, "3 ids, heap, inline, short-heap and empty data", 2, 3, &[0, 1, 2], &[0], &[0, 1, 4, 2]), 6)), c(seeded5(prop, "5 ids from seeds", 2)), c(depth(big(prop), 5)), c(depth(huge(prop), 3)), c(depth(odd(prop), 4))]
+                vec![c(all_ops(a3(prop, "3 ids, all ops"))), c(depth(a4(prop, "4 ids"), 6)), c(depth(HxCfg::new(prop, "3 ids, heap, inline, short-heap and empty data", 2, 3, &[0, 1, 2], &[0], &[0, 1, 4, 2]), 6)), c(seeded5(prop, "5 ids from seeds", 2)), c(depth(big(prop), 5)), c(depth(huge(prop), 3)), c(depth(odd(prop), 4)), c(depth(alike(prop), 5))]
             } else {
                 vec![
                     wall(c(all_ops(a3(prop, "3 ids, all ops"))), 600),
@@ -366,6 +385,8 @@ pub fn hx_plan(prop: &'static str, tier: &str) -> Vec<HxCfg> {
                     l(depth(a4(prop, "4 ids (A = Sodg<2>, 4 slots)"), 5), &[(9, 8), (10, 9), (11, 17), (12, 33), (13, 65), (14, 129), (15, 255), (16, 257), (2, 512), (2, 1024)], 1),
                     l(depth(HxCfg::new(prop, "ids 0, 300, 511 (A = Sodg<2>, 512 slots)", 2, 512, &[0, 300, 511], &[0], &[0]), 4), &[(3, 513), (16, 1024)], 1),
                     l(all_ops(HxCfg::new(prop, "3 ids, 1 label (A = Sodg<1>, 3 slots)", 1, 3, &[0, 1, 2], &[0], &[0])), &[(16, 4)], 1),
+                    // states the small alphabets reach late: an edge to a collected vertex, recycled slots, two groups
+                    l(seeded5(prop, "5 ids from seeds (A = Sodg<2>, 5 slots)", 2), &[(16, 256), (3, 6)], 1),
                 ]
             } else {
                 let mut all: Vec<(usize, usize)> = vec![];
@@ -379,6 +400,7 @@ pub fn hx_plan(prop: &'static str, tier: &str) -> Vec<HxCfg> {
                     wall(l(depth(all_ops(HxCfg::new(prop, "3 ids, 2 labels: α10 (an index above N) and x (A = Sodg<2>, 3 slots)", 2, 3, &[0, 1, 2], &[7, 1], &[0, 1])), 6), &all.iter().copied().filter(|(n, _)| *n >= 2).collect::<Vec<_>>(), 2), 1500),
                     wall(l(depth(a4(prop, "4 ids (A = Sodg<2>, 4 slots)"), 7), &[(16, 256), (2, 5), (9, 8), (3, 64), (16, 4)], 1), 1200),
                     wall(l(all_ops(a3(prop, "3 ids, all ops, to closure")), &[(16, 256), (2, 4)], 1), 1200),
+                    wall(l(seeded5(prop, "5 ids from seeds (A = Sodg<2>, 5 slots)", 4), &[(16, 256), (3, 6), (7, 100)], 1), 900),
                 ]
             }
         }
@@ -430,10 +452,16 @@ pub fn run_hx_prop(prop: &'static str, tier: &str) -> Outcome {
                         failures.push(report::hx_failure(cfg, v));
                     }
                 }
-                Ok(false) if { crate::dirty::failing_calls(); let again = crate::replay::replay_hx_violation(cfg, v); crate::dirty::mark_clean(); again == Ok(true) } => {
+                Ok(false) if [1u8, 2].iter().any(|k| {
+                    crate::dirty::set_before_last(*k);
+                    let again = crate::replay::replay_hx_violation(cfg, v);
+                    crate::dirty::set_before_last(0);
+                    crate::dirty::mark_clean();
+                    again == Ok(true)
+                }) => {
                     // reproduces only right after failing calls on unrelated objects in the same thread
                     let mut v2 = v.clone();
-                    v2.detail = format!("{} - this shows only when calls that FAIL on unrelated graphs and values (harness/src/dirty.rs) came before in the same thread: some state outside the graph survives a failed call", v.detail);
+                    v2.detail = format!("{} - this shows only when calls on UNRELATED graphs and values (failing ones, or complete successful ones: harness/src/dirty.rs) came right before in the same thread: some state outside the graph leaks from one object to another", v.detail);
                     if !failures.iter().any(|f: &Failure| f.signature == format!("hx:{}", v.kind)) {
                         failures.push(report::hx_failure(cfg, &v2));
                     }
@@ -534,7 +562,7 @@ pub fn run_hx_plus_family(prop: &'static str, tier: &str) -> Outcome {
     let t0 = Instant::now();
     let mut o = run_hx_prop(prop, tier);
     let (acc, what) = match prop {
-        "C05" => (crate::gen::families::run_c05_family(tier), "allocator families: stores of capacity 1, 2, 9, 10, 12, 17, 33, 64, 300, 1024 with 0-2 ids handed out first and a run of 0..39 explicitly added vertices right above the position, then up to 6 next_id()/add(next_id()) calls, each judged by the model that keeps the set of returned ids; plus 6 scripts with variables (succeeding and failing at different commands) x 2 capacities: the ids their variables got must not come again after the vertices are collected; plus merges of graphs that are not trees (every right graph of 2 or 3 vertices over 3 labels - quick: vertex 2 has no outgoing edges - onto 452 left shapes: 0..3 kids created by add(next_id()) or add(position+1/+2), every injective labelling, optional grandchild), then 3 next_id() calls with and without add: each id must be below the capacity, absent, and not handed out or created before (judged on the real graph alone, no model of the fold)"),
+        "C05" => (crate::gen::families::run_c05_family(tier), "allocator families: a store of 70 000 slots whose first 65 530..65 790 ids are present, then next_id() calls, a collection and more next_id() calls (allocator position beyond 16 bits); stores of capacity 1, 2, 9, 10, 12, 17, 33, 64, 300, 1024 with 0-2 ids handed out first and a run of 0..39 explicitly added vertices right above the position, then up to 6 next_id()/add(next_id()) calls, each judged by the model that keeps the set of returned ids; plus 6 scripts with variables (succeeding and failing at different commands) x 2 capacities: the ids their variables got must not come again after the vertices are collected; plus merges of graphs that are not trees (every right graph of 2 or 3 vertices over 3 labels - quick: vertex 2 has no outgoing edges - onto 452 left shapes: 0..3 kids created by add(next_id()) or add(position+1/+2), every injective labelling, optional grandchild), then 3 next_id() calls with and without add: each id must be below the capacity, absent, and not handed out or created before (judged on the real graph alone, no model of the fold)"),
         "C08" => (crate::gen::families::run_swap_family("C08", Op::ReloadSwap), "k = 1..=14 groups alive (the 14th uses the last usable slot) with unread, read and ungrouped data, then save+load (once or three times in a row), then everything is read in either order; oracle: the reference model in lock-step after every call"),
         "C10" => (crate::gen::families::run_swap_family("C10", Op::CloneSwap), "k = 1..=14 groups alive (the 14th uses the last usable slot) with unread, read and ungrouped data, then clone() - or clone_from() into an object that was used before - (once or three times in a row), then everything is read in either order; oracle: the reference model in lock-step after every call"),
         "C02" => (crate::gen::families::run_c02_family(tier), "14 groups alive at once formed through either bind arm with put before/after the bind and drained in both orders; and every way to grow one group to exactly 16 members (each of the 14 joins through either bind arm: 2^14 patterns) next to a bystander group and an ungrouped vertex, data on one or two members (position derived from the pattern), put before or after the join, overwriting put, both read orders; oracle: the reference model in lock-step after every call"),
